@@ -11,7 +11,7 @@ TRUSTED_BASE = [
 ]
 ASSUMPTIONS = {}
 NOTES = {}
-LEVELS = {'C03': 'proof', 'C13': 'proof', 'C16': 'proof', 'C17': 'proof'}
+LEVELS = {'C02': 'proof', 'C03': 'proof', 'C13': 'proof', 'C16': 'proof', 'C17': 'proof'}
 DEFAULT_LEVEL = 'model_checking'
 UNITS = {}
 OBLIGATIONS = []
@@ -305,3 +305,15 @@ UNITS['ranges'] = {
 for e in ('r_is', 'r_is_values', 'r_starts_ends', 'r_all_any_none'):
     ob(name='ranges.%s' % e[2:], kind='BL', props=['C11'], unit='ranges', harness='h_ranges.c', entry=e, unwind=6,
        bound='range = C array of length 3 (the length is part of the type, so the loops have a concrete bound); element lists of length 2-3; element matchers abstract (free answer per element) or plain int values')
+
+# ----------------------------------------------------------------------------------------------
+# unit find_is: UNBOUNDED induction (init / step / exit as DFCC contracts) for find()'s selection rule (C02)
+UNITS['find_is'] = {
+    'opaque': [], 'dyn_types': [],
+    'ghost_fields': {r'^call_matcher_base<int\(int\)>$': ['_Bool g_matches', 'unsigned g_cost', 'unsigned long g_pos']},
+    'roots': {'FIND': '4findIFiiEE', 'CMB': r'rec:^call_matcher_base<int\(int\)>$', 'CML': r'rec:^call_matcher_list<int\(int\)>$', 'LE': r'rec:^list_elem<call_matcher_base<int\(int\)>>$'},
+    'stub_aliases': {'VS_CMB_MATCHES': r'^vs_.*call_matcher_baseIFiiEE7matches', 'VS_CMB_COST': r'^vs_.*call_matcher_baseIFiiEE13sequence_cost'},
+}
+for part in ('init', 'iter', 'exit'):
+    ob(name='find_is.%s' % part, kind='IS', props=['C02'], unit='find_is', harness='h_find_is.c', entry='is_' + part, outline={'FIND': 'find'}, enforce='find__' + part,
+       bound='none: lists of any length (inductive invariant over the outlined loop of the real find(); matches()/sequence_cost() abstracted by ghost fields)', min_reach=2)
